@@ -438,6 +438,9 @@ structure Gate where
   yext : Int
 deriving DecidableEq, Repr, Inhabited
 
+/-- the token built for a valid (date, time) / (time, date) pair. -/
+def mdtPairTok (a b : Ent) (g : Gate) : Tok := ⟨a.start, b.start + b.len + g.yext⟩
+
 /-- advance `j` over the results overlapping `ers[i]`. -/
 def skipOverlap (ers : Array (Ent × Bool)) (i : Nat) : Nat → Nat → Nat
   | 0, j => j
@@ -467,7 +470,7 @@ def mdtLoop (ers : Array (Ent × Bool)) : Nat → Nat → List Gate → List Tok
               | g :: gs =>
                 if g.raises then none
                 else if g.valid then
-                  mdtLoop ers fuel (j + 1) gs (acc ++ [⟨a.1.start, b.1.start + b.1.len + g.yext⟩])
+                  mdtLoop ers fuel (j + 1) gs (acc ++ [mdtPairTok a.1 b.1 g])
                 else mdtLoop ers fuel j gs acc
           else mdtLoop ers fuel j gates acc
         | _, _ => some acc
@@ -542,6 +545,22 @@ inductive RangeKind
   | datePeriod | timePeriod | dateTimePeriod
 deriving DecidableEq, Repr, Inhabited
 
+/-- what one reached pair `(a, b)` contributes: `some token` (and the loop moves on by two) or `none`. -/
+def rangePairTok (k : RangeKind) (a b : Ent) (f : PairFact) : Option Tok :=
+  let pe := b.start + b.len
+  if f.till then
+    let pb : Int :=
+      match k with
+      | .timePeriod =>
+        -- `if from: begin = from.index`, then `if between: begin = between.index` (between wins)
+        if f.betweenI.matched then f.betweenI.index else if f.fromI.matched then f.fromI.index else a.start
+      | _ => if f.fromI.matched then f.fromI.index else if f.betweenI.matched then f.betweenI.index else a.start
+    -- time period: "between" found in `after` REPLACES the end by an index into `after`
+    let pe' : Int := if k == .timePeriod && f.afterBetween.matched then f.afterBetween.index else pe
+    some ⟨pb, pe'⟩
+  else if f.conn && f.betweenI.matched then some ⟨f.betweenI.index, pe⟩
+  else none
+
 /-- the token-building loop (`check_both_before_after = False`). `skipPair i` = the pair `(i, i+1)` is both
 TIME results (date-time period only: the loop then ends). Pair facts are consumed in order. -/
 def rangeLoop (k : RangeKind) (ers : Array Ent) (skipPair : Nat → Bool) : Nat → Nat → List PairFact → List Tok → List Tok
@@ -553,37 +572,17 @@ def rangeLoop (k : RangeKind) (ers : Array Ent) (skipPair : Nat → Bool) : Nat 
         -- date-time period: two adjacent TIME points end the loop (`break`, sic)
         if skipPair i then (if k == .dateTimePeriod then acc else rangeLoop k ers skipPair fuel (i + 1) facts acc)
         else
-          let mb := a.start + a.len
-          let me := b.start
           -- date period: `middle_begin >= middle_end` skips the pair; the other two have no such test
-          let skip : Bool :=
-            match k with
-            | .datePeriod => decide (mb ≥ me)
-            | _ => false
-          if skip then rangeLoop k ers skipPair fuel (i + 1) facts acc
+          if k == .datePeriod && decide (a.start + a.len ≥ b.start) then rangeLoop k ers skipPair fuel (i + 1) facts acc
           else
             match facts with
             | [] => acc
             | f :: fs =>
-              let pe := b.start + b.len
-              if f.till then
-                let pb : Int :=
-                  match k with
-                  | .timePeriod =>
-                    -- `if from: begin = from.index`, then `if between: begin = between.index` (between wins)
-                    if f.betweenI.matched then f.betweenI.index else if f.fromI.matched then f.fromI.index else a.start
-                  | _ => if f.fromI.matched then f.fromI.index else if f.betweenI.matched then f.betweenI.index else a.start
-                -- time period: "between" found in `after` REPLACES the end by an index into `after`
-                let pe' : Int := if k == .timePeriod && f.afterBetween.matched then f.afterBetween.index else pe
+              match rangePairTok k a b f with
+              | some t =>
                 -- date-time period: `break` after the first token (sic, a mis-ported `continue`)
-                if k == .dateTimePeriod then acc ++ [⟨pb, pe'⟩]
-                else rangeLoop k ers skipPair fuel (i + 2) fs (acc ++ [⟨pb, pe'⟩])
-              else if f.conn then
-                if f.betweenI.matched then
-                  (if k == .dateTimePeriod then acc ++ [⟨f.betweenI.index, pe⟩]
-                   else rangeLoop k ers skipPair fuel (i + 2) fs (acc ++ [⟨f.betweenI.index, pe⟩]))
-                else rangeLoop k ers skipPair fuel (i + 1) fs acc
-              else rangeLoop k ers skipPair fuel (i + 1) fs acc
+                if k == .dateTimePeriod then acc ++ [t] else rangeLoop k ers skipPair fuel (i + 2) fs (acc ++ [t])
+              | none => rangeLoop k ers skipPair fuel (i + 1) fs acc
       | _, _ => acc
     else acc
 
